@@ -180,8 +180,9 @@ def finish(prop, tier, seed, level, records, errors, walls, t0, *, functions, as
         fam = family(r["name"])
         if fam in seen_fam:
             seen_fam[fam]["count"] += 1
+            seen_fam[fam]["others"].append(r)
             continue
-        entry = {"count": 1, "rec": r}
+        entry = {"count": 1, "rec": r, "others": []}
         seen_fam[fam] = entry
         path = replay_file(prop, r)
         payload = {"property": prop, "obligation": r["name"], "verdict": r["verdict"],
@@ -204,6 +205,34 @@ def finish(prop, tier, seed, level, records, errors, walls, t0, *, functions, as
             known_hits.append((hit, r))
         else:
             violations.append(entry)
+
+    # a family whose representative did not replay: try members of other shapes
+    # (the defect may need more teams / players than the first shape has)
+    for e in violations:
+        if e["reproduced"]:
+            continue
+        tried = {e["rec"]["shape"]}
+        for r in reversed(e["others"]):
+            if len(tried) >= 4:
+                break
+            if r["shape"] in tried or r["replay"] is None:
+                continue
+            tried.add(r["shape"])
+            payload = {"property": prop, "obligation": r["name"], "verdict": r["verdict"],
+                       "backend": r["backend"], "solver_note": r["note"], "shape": r["shape"],
+                       "fn": r["fn"], "replay": r["replay"], "smt": r.get("smt"), "seed": seed,
+                       "repo": REPO}
+            alt = e["path"][:-5] + ".alt.json"
+            with open(alt, "w") as fh:
+                json.dump(payload, fh, indent=1, default=str)
+            ok, out = run_replay(alt)
+            if ok:
+                os.replace(alt, e["path"])
+                e.update(reproduced=True, out=out, rec=r)
+                break
+            os.unlink(alt)
+    for e in seen_fam.values():
+        e.pop("others", None)
 
     nobl = len(normal)
     ndis = sum(1 for r in normal if r["verdict"] == "discharged")
